@@ -31,6 +31,16 @@ Theorem C07_copy (S : SOps) {P} (ps : list P) lw u1 d j :
   nth j out d = nth (nth j par 0%nat) ps d.
 Proof. exact (resample_copy S ps lw u1 d j). Qed.
 
+(* the same per member, for the loop body written as the three assignments of Resampling.cpp:88-90
+   (resample3 is what the correspondence check runs for the plain variant; it equals resample on particle records) *)
+Theorem C07_copy_members (S : SOps) {A B C} (ps : list (particle A B C)) lw u1 d j :
+  ps <> [] -> (j < length lw)%nat -> length ps = length lw ->
+  let '(out, w, par) := @resample3 S A B C ps lw u1 in
+  p_state (nth j out d) = p_state (nth (nth j par 0%nat) ps d) /\
+  p_mean (nth j out d) = p_mean (nth (nth j par 0%nat) ps d) /\
+  p_cov (nth j out d) = p_cov (nth (nth j par 0%nat) ps d).
+Proof. exact (resample3_copy S ps lw u1 d j). Qed.
+
 Theorem C07_parents_sorted (S : SOps) lw u1 a b : (a <= b < length lw)%nat ->
   (nth a (res_parents S lw u1) 0 <= nth b (res_parents S lw u1) 0)%nat.
 Proof. exact (parents_sorted_statement S lw u1 a b). Qed.
@@ -105,7 +115,10 @@ Proof. exact (fun H => conj (lse_normalise_sum l H) (lse_normalised_zero l H)). 
 
 (* ---- prior-mixing variant ---- *)
 
-(* num_prior_particles = floor(N ratio); at least one particle is resampled *)
+(* num_prior_particles = floor(N ratio); at least one particle is resampled.  This is the floor of the REAL product;
+   the library (and the extracted model run on doubles) floors the rounded DOUBLE product: N = 10, ratio = 0.7 gives
+   10 * 0.7 = 7.000000000000001 -> 7 in doubles although the double nearest to 0.7 is below 7/10 (exact floor 6).
+   Both sides of the correspondence agree on 7 (generated case class ratio 0.7, N 10). *)
 Theorem C07p_num_prior (e : R -> R) N (ratio : R) : (0 < N)%nat -> 0 <= ratio < 1 ->
   INR (num_prior (ROpsE e) N ratio) <= INR N * ratio < INR (num_prior (ROpsE e) N ratio) + 1
   /\ (num_prior (ROpsE e) N ratio < N)%nat.
@@ -146,6 +159,35 @@ Theorem C07p_copy (S : SOps) {P} (init : nat -> list P) ratio (ps : list P) lw u
   = nth (Z.to_nat (nth (num_prior S (length ps) ratio + j) (snd (@resample_prior S P init ratio ps lw u1)) 0%Z)) ps d.
 Proof. exact (prior_copy S init ratio ps lw u1). Qed.
 
+(* ... member by member when the particles are (state, mean, covariance) records *)
+Theorem C07p_copy_members (S : SOps) {A B C} (init : nat -> list (particle A B C)) ratio (ps : list (particle A B C)) lw u1 :
+  length lw = length ps -> (0 < length ps)%nat ->
+  length (init (num_prior S (length ps) ratio)) = num_prior S (length ps) ratio ->
+  forall j d, (j < length ps - num_prior S (length ps) ratio)%nat ->
+  let o := nth (num_prior S (length ps) ratio + j) (pparts (fst (@resample_prior S _ init ratio ps lw u1))) d in
+  let p := nth (Z.to_nat (nth (num_prior S (length ps) ratio + j) (snd (@resample_prior S _ init ratio ps lw u1)) 0%Z)) ps d in
+  p_state o = p_state p /\ p_mean o = p_mean p /\ p_cov o = p_cov p.
+Proof. exact (prior_copy_members S init ratio ps lw u1). Qed.
+
+(* the reported parent of resampled particle j, exactly: the original index found at position
+   num_prior + (position selected among the kept ones) of the sorted order *)
+Theorem C07p_parent_exact (S : SOps) {P} (init : nat -> list P) ratio (ps : list P) lw u1 :
+  length lw = length ps -> (0 < length ps)%nat ->
+  length (init (num_prior S (length ps) ratio)) = num_prior S (length ps) ratio ->
+  forall j, (j < length ps - num_prior S (length ps) ratio)%nat ->
+  nth (num_prior S (length ps) ratio + j) (snd (@resample_prior S P init ratio ps lw u1)) 0%Z
+  = Z.of_nat (nth (num_prior S (length ps) ratio + nth j (rpar S ratio ps lw u1) 0%nat) (sort_idx S (map (sexp S) lw)) 0%nat)
+  /\ (num_prior S (length ps) ratio + nth j (rpar S ratio ps lw u1) 0 < length ps)%nat
+  /\ (nth (num_prior S (length ps) ratio + nth j (rpar S ratio ps lw u1) 0%nat) (sort_idx S (map (sexp S) lw)) 0 < length ps)%nat.
+Proof. exact (prior_parents_right S init ratio ps lw u1). Qed.
+
+(* the first num_prior particles of the returned set are exactly what the initialiser produced *)
+Theorem C07p_fresh_left (S : SOps) {P} (init : nat -> list P) ratio (ps : list P) lw u1 :
+  length (init (num_prior S (length ps) ratio)) = num_prior S (length ps) ratio ->
+  firstn (num_prior S (length ps) ratio) (pparts (fst (@resample_prior S P init ratio ps lw u1)))
+  = init (num_prior S (length ps) ratio).
+Proof. exact (prior_fresh_left S init ratio ps lw u1). Qed.
+
 Theorem C07p_uniform (S : SOps) {P} (init : nat -> list P) ratio (ps : list P) lw u1 :
   length lw = length ps -> (0 < length ps)%nat ->
   length (init (num_prior S (length ps) ratio)) = num_prior S (length ps) ratio ->
@@ -185,6 +227,14 @@ Qed.
 (* QOps has sexp = identity: the list below is the weight vector itself.
    N = 4, w = (1/2, 0, 1/8, 3/8), u1 = 1/5: comb 1/5, 9/20, 7/10, 19/20 -> parents 0 0 3 3;
    and the u1 = 0 boundary witness w = (1/2, 1/2): parents 0 0. *)
+(* "up to rounding of the cumulative weights": when the weights sum to less than the last comb point the guard
+   idx < N-1 hands the surplus to the LAST particle, even if its weight is zero (sum 99/100, u1 = 33/100, u_2 = 299/300),
+   and at the excluded boundary u1 = 0 a zero-weight FIRST particle is selected *)
+Example C07_rounding_surplus_Q :
+  res_parents QOps [1#2; 49#100; 0]%Q (33#100)%Q = [0; 1; 2]%nat /\
+  res_parents QOps [0; 1]%Q 0%Q = [0; 1]%nat.
+Proof. vm_compute. split; reflexivity. Qed.
+
 Example C07_concrete_Q :
   res_parents QOps [1#2; 0; 1#8; 3#8]%Q (1#5)%Q = [0; 0; 3; 3]%nat /\
   res_parents QOps [1#2; 1#2]%Q 0%Q = [0; 0]%nat /\
@@ -194,6 +244,7 @@ Proof. vm_compute. repeat split. Qed.
 Print Assumptions C07_advance_fuel.
 Print Assumptions C07_length.
 Print Assumptions C07_copy.
+Print Assumptions C07_copy_members.
 Print Assumptions C07_parents_sorted.
 Print Assumptions C07_parents_in_range.
 Print Assumptions C07_uniform_weights.
@@ -211,6 +262,9 @@ Print Assumptions C07p_num_prior.
 Print Assumptions C07p_partition.
 Print Assumptions C07p_parents.
 Print Assumptions C07p_copy.
+Print Assumptions C07p_copy_members.
+Print Assumptions C07p_parent_exact.
+Print Assumptions C07p_fresh_left.
 Print Assumptions C07p_uniform.
 Print Assumptions C07p_reports_N.
 Print Assumptions C07p_count_bound.
